@@ -17,7 +17,7 @@ import time
 VERIF = os.path.dirname(os.path.dirname(os.path.abspath(__file__)))
 REPO = os.environ.get('VERIF_REPO', '/repo')
 CACHE = os.path.join(VERIF, '.cache')
-TARGET = os.path.join(CACHE, 'target')
+TARGET = os.path.join(CACHE, 'target' if REPO == '/repo' else 'target_' + hashlib.sha1(REPO.encode()).hexdigest()[:8])
 COQ = os.path.join(VERIF, 'coq')
 RUNNER = os.path.join(CACHE, 'runner', 'runner')
 ZINOMA = os.path.join(TARGET, 'debug', 'zinoma')
@@ -66,6 +66,7 @@ def build_impl():
     """cargo build of the current working tree of /repo, hooks on. Returns (ok, log)."""
     with Lock('cargo'):
         t0 = time.time()
+        sh(['sh', os.path.join(VERIF, 'harness', 'gen_modes.sh')], timeout=60)
         rc, out, err = sh(['cargo', 'build', '--offline'], cwd=REPO, timeout=1800,
                           env={'RUSTFLAGS': '--cfg ' + GUARD, 'CARGO_TARGET_DIR': TARGET,
                                'CARGO_NET_OFFLINE': 'true'})
@@ -86,14 +87,16 @@ def coq_sources():
     return out
 
 
-def build_model():
-    """Full .vo build (never -vos), extraction, runner. Returns (ok, log)."""
+def build_model(targets=None):
+    """Full .vo build (never -vos) of `targets` (default: everything), extraction, runner. Returns (ok, log)."""
     with Lock('coq'):
         t0 = time.time()
         rc, out, err = sh(['sh', './gen_coqproject.sh'], cwd=COQ, timeout=120)
         if rc != 0:
             return False, 'gen_coqproject failed: ' + err
-        rc, out, err = sh('timeout 3000 make -j16 2>&1', cwd=COQ, timeout=3100)
+        sh(['sh', os.path.join(VERIF, 'harness', 'gen_modes.sh')], timeout=60)
+        tg = ' '.join(targets) if targets else ''
+        rc, out, err = sh('timeout 3000 make -j16 %s 2>&1' % tg, cwd=COQ, timeout=3100)
         log('[build_model] make rc=%d %.1fs' % (rc, time.time() - t0))
         if rc != 0:
             return False, out[-6000:]
@@ -165,7 +168,7 @@ def proof_status(prop):
         if re.search(r'^\s*(Variable|Variables|Hypothesis|Hypotheses|Context)\b', src, re.M) and 'Section' not in src:
             res['reason'] = 'Variable/Hypothesis outside a section in %s' % os.path.relpath(f, COQ)
             return res
-    ok, out = build_model()
+    ok, out = build_model(None if os.environ.get('VERIF_FULL_MAKE') else ['Properties/%s.vo' % prop, 'Extract.vo'])
     if not ok:
         res['reason'] = 'coq build failed: ' + out[-1500:]
         return res
